@@ -735,4 +735,14 @@ theorem domain_code_sound (b : Build) (conv : List Nat → Conv) (m : Mode) (hm 
                 · exact absurd hc iv
                 · split at hc <;> exact absurd hc iv
 
+/-! ### the premises occur -/
+
+/-- `a..b` makes mode 5321 report "too many dots", and it does contain `..` -/
+example : localOf {} .m5321 [97, 46, 46, 98] = -(E.LPART_TOO_MANY_DOTS : Int) ∧ HasDotDot [97, 46, 46, 98] :=
+  ⟨by decide, ⟨[97], [98], rfl⟩⟩
+/-- a local-part code: `a b@c.d` in mode 5321 gives "special characters" (code 7) -/
+example : (isEmail {} (fun _ => ⟨0, none⟩) .m5321 [97, 32, 98, 64, 99, 46, 100] false).map (·.rc) = .ok (-(E.LPART_SPECIAL : Int)) := by decide
+/-- a domain code: `a@-b.c` gives "misplaced hyphen" -/
+example : (isEmail {} (fun _ => ⟨0, none⟩) .m5321 [97, 64, 45, 98, 46, 99] false).map (·.rc) = .ok (-(E.DOMAIN_MISPLACED_HYPHEN : Int)) := by decide
+
 end Eav.Props.C15
